@@ -40,9 +40,12 @@ def opp_case(r):
     P = Prog()
     rem = rem_class(r)
     b0 = r.choice([0, 1, 2, 3, 5, 2**31 - 2, 2**31 - 1, 2**31, 2**32, 2**32 + 2, 2**40, r.below(2**40)])
-    d = r.choice([0, 1, 2, 2, 2, 3, 4, 6, 2**32, 2**32 + 2, 2**31 + 2, 2**31 - 2])
-    rem2 = r.choice([rem, rem, fb.nxt(rem, 1), rem + 5e-16, rem + 1e-15, rem + 2e-15, rem + 1e-3])
-    rem2 = min(rem2, fb.Q - 2e-10)
+    d = r.choice([0, 1, 2, 2, 2, 2, 2, 2, 3, 4, 6, 2**32, 2**32 + 2, 2**31 + 2, 2**31 - 2])
+    # remainder gaps of BOTH signs: equal, ulps, around the 1e-15 tolerance, and the whole band up to the 1e-10 boundary snap
+    # (a difference taken with the library's own subtraction snaps gaps below 1e-10 on one side)
+    gap = r.choice([0.0, 0.0, 5e-16, 1e-15, 2e-15, 1e-14, 1e-12, 5e-11, 9.9e-11, 1e-10, 2e-10, 1e-3]) * r.choice([1, -1])
+    rem2 = r.choice([fb.nxt(rem, 1), fb.nxt(rem, -1)]) if r.chance(0.1) else rem + gap
+    rem2 = min(max(rem2, 0.0), fb.Q - 2e-10)
     a = angle_rem(P, rem, b0 + d); b = angle_rem(P, rem2, b0)
     return Case(P, [('opposite_iff', [a, b, P.add('AIsOpp', a, b)]), ('opposite_iff', [b, a, P.add('AIsOpp', b, a)])], 'is_opposite')
 
